@@ -52,7 +52,7 @@ pub fn run_conc(sc: &ThreadScenario, suts: &[Option<TSut>]) -> ConcRun {
     let sites: Mutex<[u64; NSITES]> = Mutex::new([0; NSITES]);
     let died: Mutex<Option<String>> = Mutex::new(None);
     {
-        let env = Env { suts, fixed: &sc.fixed_hays, slots: &slots, counters: &counters };
+        let env = Env { specs: &sc.searchers, suts, fixed: &sc.fixed_hays, slots: &slots, counters: &counters };
         std::thread::scope(|scope| {
             for tid in 0..n {
                 let sched = sched.clone();
@@ -182,7 +182,7 @@ pub fn reference_with(sc: &ThreadScenario, fresh_per_op: bool) -> Result<Vec<Vec
                     }
                 }
                 Op::StartIter { slot, .. } => {
-                    let env = Env { suts, fixed: &sc.fixed_hays, slots: &slots, counters: &counters };
+                    let env = Env { specs: &sc.searchers, suts, fixed: &sc.fixed_hays, slots: &slots, counters: &counters };
                     if starts.get(slot) != Some(&(t, i)) {
                         // a second producer for the same slot: executed alone
                         out[t][i] = exec_op(&env, None, &mut bufs, op, 0);
@@ -196,7 +196,7 @@ pub fn reference_with(sc: &ThreadScenario, fresh_per_op: bool) -> Result<Vec<Vec
                     slots.lock().unwrap().clear();
                 }
                 _ => {
-                    let env = Env { suts, fixed: &sc.fixed_hays, slots: &slots, counters: &counters };
+                    let env = Env { specs: &sc.searchers, suts, fixed: &sc.fixed_hays, slots: &slots, counters: &counters };
                     out[t][i] = exec_op(&env, None, &mut bufs, op, 0);
                 }
             }
@@ -531,7 +531,7 @@ pub fn run_free(sc: &ThreadScenario, suts: &[Option<TSut>]) -> Vec<Vec<Vec<R>>> 
     // all threads start their first operation together (first-use races)
     let gate = std::sync::Barrier::new(n);
     {
-        let env = Env { suts, fixed: &sc.fixed_hays, slots: &slots, counters: &counters };
+        let env = Env { specs: &sc.searchers, suts, fixed: &sc.fixed_hays, slots: &slots, counters: &counters };
         std::thread::scope(|scope| {
             for tid in 0..n {
                 let env = &env;
@@ -562,7 +562,7 @@ pub fn run_seq(sc: &ThreadScenario, suts: &[Option<TSut>]) -> Vec<Vec<Vec<R>>> {
     let counters = Mutex::new(Counters::default());
     let mut results = Vec::new();
     {
-        let env = Env { suts, fixed: &sc.fixed_hays, slots: &slots, counters: &counters };
+        let env = Env { specs: &sc.searchers, suts, fixed: &sc.fixed_hays, slots: &slots, counters: &counters };
         // producers first so that every ResumeIter finds its iterator
         let mut order: Vec<(usize, usize)> = Vec::new();
         for pass in 0..2 {
